@@ -35,4 +35,22 @@ PGetList(a, idx) == LET F(j) == a[idx[j] + 1] IN Mk(F, Len(idx))
 RECURSIVE PSetListR(_,_,_,_)
 PSetListR(a, idx, v, j) == IF j > Len(idx) THEN a ELSE PSetListR([a EXCEPT ![idx[j] + 1] = v[j]], idx, v, j+1)
 PSetList(a, idx, v) == PSetListR(a, idx, v, 1)
+
+\* ---- beyond property C16 (supplementary check X01): polynomial view of the same value ----------------------
+\* degree: index of the highest non-zero coefficient, -1 for the zero polynomial (and the empty vector)
+RECURSIVE PDegR(_,_,_)
+PDegR(k, a, i) == IF i = 0 THEN -1 ELSE IF a[i] # CZ(k) THEN i - 1 ELSE PDegR(k, a, i - 1)
+PDegree(k, a) == PDegR(k, a, Len(a))
+PIsZero(k, a) == PDegree(k, a) = -1
+\* equality as polynomials: equal after zero-extension to the longer dimension
+PEq(k, a, b) == \A i \in 1..Max(Len(a), Len(b)) : At(k, a, i) = At(k, b, i)
+\* product: convolution of the coefficient sequences in the ring; dimension Len(a) + Len(b) as crysp allocates it
+CMul(k, x, y) == IF k = 0 THEN x * y ELSE Mul2(x, y)
+CAdd(k, x, y) == IF k = 0 THEN x + y ELSE AddW(x, y, k)
+RECURSIVE PMulSum(_,_,_,_,_)
+PMulSum(k, a, b, n, j) ==      \* sum over j' in 1..j of a[j'] * b[n + 1 - j'] (1-based; n = target index)
+  IF j = 0 THEN CZ(k)
+  ELSE LET rest == PMulSum(k, a, b, n, j - 1)  r == n + 1 - j IN
+       IF j <= Len(a) /\ r >= 1 /\ r <= Len(b) THEN CAdd(k, rest, CMul(k, a[j], b[r])) ELSE rest
+PMul(k, a, b) == LET F(n) == PMulSum(k, a, b, n, n) IN Mk(F, Len(a) + Len(b))
 =============================================================================
